@@ -111,6 +111,13 @@ Proof.
       * cbn in N. destruct n; discriminate.
 Qed.
 
+Lemma qmax_cases : forall x y, (x <= y /\ qmax x y = y) \/ (y < x /\ qmax x y = x).
+Proof.
+  intros x y. unfold qmax. destruct (Qle_bool x y) eqn:E.
+  - left. split; [apply Qle_bool_iff; exact E | reflexivity].
+  - right. split; [apply Qle_bool_false; exact E | reflexivity].
+Qed.
+
 Lemma nohang_none : forall t, nohang t = false -> t = None.
 Proof. intros [t|] H; [discriminate|reflexivity]. Qed.
 
@@ -122,6 +129,7 @@ Section Loop.
   Let stop : Q := match tmo with Some t => start + t | None => start end.
   Hypothesis tm_nonneg : forall t, tmo = Some t -> 0 <= t.
   Hypothesis wfst : wf_status (p_status p) = true.
+  Hypothesis wfe : forall i d, eintr_at p i = Some d -> 0 <= d.
 
   Let W := k_waitpid p.
   Let E := k_exists p.
@@ -198,8 +206,24 @@ Section Loop.
   Lemma inv_bump : forall ph s, Inv ph s -> Inv ph (bump s).
   Proof. intros ph s H. exact H. Qed.
 
-  Lemma has_eintr_nil : forall i, p_eintr p = [] -> has_eintr p i = false.
-  Proof. intros i H. unfold has_eintr. rewrite H. reflexivity. Qed.
+  Lemma eintr_at_nil : forall i, p_eintr p = [] -> eintr_at p i = None.
+  Proof. intros i H. unfold eintr_at. rewrite H. reflexivity. Qed.
+
+  (* the clock read after an interrupted call: later than the call only without a timeout *)
+  Lemma inv_at_time : forall ph s t,
+    Inv ph s -> now s <= t -> (forall tm, tmo = Some tm -> t == now s) -> p_eintr p <> [] ->
+    Inv ph (at_time s t).
+  Proof.
+    intros ph s t (I1 & I2 & I3 & I4 & I5 & I6 & I7 & I8 & I9 & I10) M T NN.
+    unfold Inv, at_time. cbn [now interval calls slept].
+    split; [exact I1|]. split; [exact I2|]. split; [exact I3|]. split; [exact I4|].
+    split; [lra|].
+    split; [intros tm Tm; pose proof (T _ Tm); pose proof (I6 _ Tm); lra|].
+    split; [exact I7|].
+    split; [intros _ Nil; contradiction|].
+    split; [exact I9|].
+    intros tm Tm Z. pose proof (T _ Tm). pose proof (I10 _ Tm Z). lra.
+  Qed.
 
   Lemma post_trans : forall s s1 r s',
     now s <= now s1 -> (calls s <= calls s1)%nat -> Post s1 r s' -> Post s r s'.
@@ -221,30 +245,59 @@ Section Loop.
         assert (N1 : now s1 = now s) by reflexivity.
         assert (N1q : now s1 == now s) by reflexivity.
         assert (C1 : calls s1 = S (calls s)) by reflexivity.
-        assert (SL1 : slept s1 = slept s) by reflexivity.
-        (* the two sleeping outcomes share this continuation *)
-        assert (SLEEP : forall (alive : p_eintr p = [] -> p_kind p <> NeverExisted /\ ended_by p (now s1) = false),
-                   (if expired tmo stop s1 then (timeout_exc (p_pid p) tmo, s1)
-                    else loop W E (p_pid p) tmo stop f PWait (do_sleep s1)) = (r, s') ->
+        (* every sleeping outcome shares this continuation *)
+        assert (SLEEP : forall s2,
+                   Inv PWait s2 -> now s <= now s2 -> (calls s <= calls s2)%nat ->
+                   (p_eintr p = [] -> p_kind p <> NeverExisted /\ ended_by p (now s2) = false) ->
+                   (if expired tmo stop s2 then (timeout_exc (p_pid p) tmo, s2)
+                    else loop W E (p_pid p) tmo stop f PWait (do_sleep s2)) = (r, s') ->
                    ~ (p_kind p = NeverExisted /\ p_eintr p = []) -> Post s r s').
-        { intros alive L1 NE. destruct (expired tmo stop s1) eqn:X.
+        { intros s2 I2 M2 C2 alive L1 NE. destruct (expired tmo stop s2) eqn:X.
           - inversion L1. subst r s'. destruct (expired_true _ X) as (t & T & Le).
             rewrite (timeout_exc_some _ T).
-            destruct I1 as (J1 & J2 & J3 & J4 & J5 & J6 & J7 & J8 & J9 & J10).
+            destruct I2 as (J1 & J2 & J3 & J4 & J5 & J6 & J7 & J8 & J9 & J10).
             unfold Post. repeat split; try assumption; try lra; try lia.
             + eapply J6; eauto.
             + apply alive; assumption.
             + apply alive; assumption.
-          - pose proof (inv_sleep _ _ I1 X NE) as I2.
-            pose proof (IH _ _ _ _ I2 L1) as PP.
-            destruct I1 as (J1 & J2 & J3 & J4 & J5 & J6 & J7 & J8 & J9 & J10).
+          - pose proof (inv_sleep _ _ I2 X NE) as I3.
+            pose proof (IH _ _ _ _ I3 L1) as PP.
+            destruct I2 as (J1 & J2 & J3 & J4 & J5 & J6 & J7 & J8 & J9 & J10).
             eapply post_trans; [| |exact PP]; cbn [do_sleep now calls]; [lra | lia]. }
+        (* an interrupted call: the clock is at t >= now when the handler runs *)
+        assert (EINTR : forall t,
+                   now s <= t -> (forall tm, tmo = Some tm -> t == now s) -> p_eintr p <> [] ->
+                   (let s2 := at_time s1 t in
+                    if expired tmo stop s2 then (timeout_exc (p_pid p) tmo, s2)
+                    else loop W E (p_pid p) tmo stop f PWait (do_sleep s2)) = (r, s') -> Post s r s').
+        { intros t Mt Tt NN L1. cbv zeta in L1.
+          apply (SLEEP (at_time s1 t));
+            [apply inv_at_time; assumption | exact Mt | cbn [at_time calls]; lia
+            | intro Nil; contradiction | exact L1 | intros [_ Nil]; contradiction]. }
         unfold W in L at 1. unfold k_waitpid in L.
-        destruct (has_eintr p (calls s)) eqn:HE.
-        * (* EINTR *)
-          apply SLEEP in L; [exact L | |].
-          -- intro Nil. rewrite (has_eintr_nil _ Nil) in HE. discriminate.
-          -- intros [_ Nil]. rewrite (has_eintr_nil _ Nil) in HE. discriminate.
+        destruct (eintr_at p (calls s)) as [d|] eqn:HE.
+        * (* EINTR scheduled for this call *)
+          assert (NN : p_eintr p <> []) by (intro Nil; rewrite (eintr_at_nil _ Nil) in HE; discriminate).
+          pose proof (wfe _ _ HE) as D0.
+          assert (NOW : forall tm, tmo = Some tm -> now s == now s) by (intros; reflexivity).
+          assert (BLK : nohang tmo = false -> forall tm, tmo = Some tm -> now s + d == now s).
+          { intros NH tm T. rewrite (nohang_none _ NH) in T. discriminate. }
+          destruct (nohang tmo) eqn:NH.
+          -- apply (EINTR (now s)); try assumption. lra.
+          -- destruct (p_kind p) eqn:K.
+             ++ destruct (p_exit p) as [T|] eqn:EX.
+                ** destruct (Qle_bool (now s + d) (qmax T (now s))) eqn:QE.
+                   --- apply (EINTR (now s + d)); try assumption; [lra | apply BLK; reflexivity].
+                   --- inversion L. subst r s'. rewrite (status_decode _ wfst).
+                       destruct (qmax_cases T (now s)) as [[QA QB]|[QA QB]]; rewrite QB in *;
+                       destruct I as (J1 & J2 & J3 & J4 & J5 & J6 & J7 & J8 & J9 & J10);
+                       unfold Post, at_time; cbn [now calls slept];
+                       repeat split; try assumption; try lra; try lia;
+                         try (intros t0 T0; rewrite (nohang_none _ NH) in T0; discriminate);
+                       unfold ended_by; rewrite EX; apply Qle_bool_iff; lra.
+                ** apply (EINTR (now s + d)); try assumption; [lra | apply BLK; reflexivity].
+             ++ apply (EINTR (now s)); try assumption. lra.
+             ++ apply (EINTR (now s)); try assumption. lra.
         * destruct (p_kind p) eqn:K.
           -- (* Child *)
              destruct (p_exit p) as [T|] eqn:EX.
@@ -255,7 +308,7 @@ Section Loop.
                    repeat split; try assumption; try lra; try lia.
                    unfold ended_by. rewrite EX. exact TE.
                 ** destruct (nohang tmo) eqn:NH.
-                   --- apply SLEEP in L; [exact L | |].
+                   --- apply (SLEEP s1) in L; [exact L | exact I1 | lra | lia | |].
                        +++ intros _. split; [discriminate|]. unfold ended_by. rewrite EX, N1. exact TE.
                        +++ intros [Kn _]. discriminate.
                    --- inversion L. subst r s'. rewrite (status_decode _ wfst).
@@ -266,7 +319,7 @@ Section Loop.
                          try (intros t0 T0; rewrite (nohang_none _ NH) in T0; discriminate).
                        unfold ended_by. rewrite EX. apply Qle_bool_iff. lra.
              ++ destruct (nohang tmo) eqn:NH.
-                ** apply SLEEP in L; [exact L | |].
+                ** apply (SLEEP s1) in L; [exact L | exact I1 | lra | lia | |].
                    --- intros _. split; [discriminate|]. unfold ended_by. rewrite EX. reflexivity.
                    --- intros [Kn _]. discriminate.
                 ** inversion L. subst r s'.
@@ -341,10 +394,16 @@ Proof.
   intros tmo H t T. subst tmo. cbn in H. apply negb_false_iff in H. apply Qle_bool_iff. exact H.
 Qed.
 
-Lemma wf_proc_parts : forall p, wf_proc p = true -> (0 < p_pid p)%Z /\ wf_status (p_status p) = true.
+Lemma wf_proc_parts : forall p, wf_proc p = true ->
+  (0 < p_pid p)%Z /\ wf_status (p_status p) = true /\ (forall i d, eintr_at p i = Some d -> 0 <= d).
 Proof.
-  intros p H. unfold wf_proc in H. apply andb_true_iff in H. destruct H as [A B].
-  split; [apply Z.ltb_lt; exact A | exact B].
+  intros p H. unfold wf_proc in H. apply andb_true_iff in H. destruct H as [H C].
+  apply andb_true_iff in H. destruct H as [A B].
+  split; [apply Z.ltb_lt; exact A |]. split; [exact B|].
+  intros i d Ei. unfold eintr_at in Ei.
+  destruct (find (fun x => Nat.eqb i (fst x)) (p_eintr p)) as [x|] eqn:F; [|discriminate].
+  inversion Ei. subst d. apply find_some in F. destruct F as [F _].
+  rewrite forallb_forall in C. apply Qle_bool_iff. apply C. exact F.
 Qed.
 
 Lemma wait_pid_post : forall p tmo start fuel c0 r s',
@@ -352,7 +411,7 @@ Lemma wait_pid_post : forall p tmo start fuel c0 r s',
   wait_pid (k_waitpid p) (k_exists p) (p_pid p) tmo fuel start c0 = (r, s') ->
   Post p tmo start (init_wst start c0) r s'.
 Proof.
-  intros p tmo start fuel c0 r s' WF NN H. destruct (wf_proc_parts _ WF) as [PP WS].
+  intros p tmo start fuel c0 r s' WF NN H. destruct (wf_proc_parts _ WF) as (PP & WS & WE).
   unfold wait_pid in H. destruct (p_pid p <=? 0)%Z eqn:LE; [apply Z.leb_le in LE; lia|].
   eapply loop_post; eauto. apply init_inv. exact NN.
 Qed.
@@ -409,10 +468,10 @@ Theorem never_existed_at_once : forall p c0 tmo f t0,
   process_wait (k_waitpid p) (k_exists p) (p_pid p) (fresh c0) tmo (S (S f)) t0
   = (RNone, {| exitcode := Some RNone; kcalls := S c0 |}, t0, []).
 Proof.
-  intros p c0 tmo f t0 WF B K Ei. destruct (wf_proc_parts _ WF) as [PP _].
+  intros p c0 tmo f t0 WF B K Ei. destruct (wf_proc_parts _ WF) as (PP & _ & _).
   unfold process_wait. rewrite B. cbn [exitcode fresh kcalls]. unfold wait_pid.
   destruct (p_pid p <=? 0)%Z eqn:LE; [apply Z.leb_le in LE; lia|].
-  cbn [loop init_wst calls now]. unfold k_waitpid, has_eintr. rewrite Ei, K. cbn [existsb].
+  cbn [loop init_wst calls now]. unfold k_waitpid, eintr_at. rewrite Ei, K. cbn [find].
   cbn [bump now]. unfold k_exists. rewrite K. reflexivity.
 Qed.
 
@@ -438,7 +497,7 @@ Theorem timeout_eintr_refuted :
     process_wait (k_waitpid p) (k_exists p) (p_pid p) (fresh 0) (Some 0) 100 t0 = (RTimeout 0 (p_pid p), o', t', sl)
     /\ p_kind p = Child /\ ended_by p t' = true.
 Proof.
-  exists (mk_proc 4242 Child (Some (-1 # 1)) (ExitCode 3) [0%nat]), 0.
+  exists (mk_proc 4242 Child (Some (-1 # 1)) (ExitCode 3) [(0%nat, 0)]), 0.
   eexists. eexists. eexists. split; [reflexivity|]. split; [vm_compute; reflexivity|].
   split; reflexivity.
 Qed.
@@ -528,7 +587,7 @@ Proof.
 Qed.
 
 (* ---- the hypotheses of the theorems above are satisfiable: concrete runs ---- *)
-Definition ex_child : proc := mk_proc 7 Child (Some (3 # 1000)) (Killed 9 false) [1%nat].
+Definition ex_child : proc := mk_proc 7 Child (Some (3 # 1000)) (Killed 9 false) [(1%nat, 0)].
 Definition ex_stuck : proc := mk_proc 8 NonChild None (ExitCode 0) [].
 
 Example ex_wait_status : exists o' t' sl,
